@@ -20,7 +20,12 @@ def norm_atom(e):
     """canonicalise set-valued arguments nested inside an atom"""
     if not isinstance(e, tuple) or not e:
         return e
-    if is_setop(e) or e[0] == "bbconst":
+    if e[0] == "bbconst":
+        if e[1] in (0, FULL):
+            return canon(e)
+        s = split_const(e)
+        return e if s is e else canon(s)
+    if is_setop(e):
         return canon(e)
     r = tuple(norm_atom(x) if isinstance(x, tuple) else x for x in e)
     if r[0] in ("between", "line") and len(r) == 3 and repr(r[2]) < repr(r[1]):
@@ -29,7 +34,16 @@ def norm_atom(e):
     return r
 
 
+def split_const(e):
+    """non-trivial constants with more than half of the bits set are written as complements, so that
+    BB(!M) and !BB(M) share one atom"""
+    if isinstance(e, tuple) and e and e[0] == "bbconst" and e[1] not in (0, FULL) and bin(e[1]).count("1") > 32:
+        return ("not", ("bbconst", FULL & ~e[1]))
+    return e
+
+
 def collect_atoms(e, out):
+    e = split_const(e)
     if is_setop(e):
         for x in e[1:]:
             collect_atoms(x, out)
@@ -42,6 +56,7 @@ def collect_atoms(e, out):
 
 
 def evaluate(e, cols, ones):
+    e = split_const(e)
     k = e[0]
     if k == "and":
         return evaluate(e[1], cols, ones) & evaluate(e[2], cols, ones)
@@ -95,7 +110,12 @@ def canon(e):
                 return ("bool", (), 0)
             if e[1] == FULL:
                 return ("bool", (), 1)
-        return norm_atom(e)
+            s = split_const(e)
+            if s is e:
+                return e
+            e = s
+        else:
+            return norm_atom(e)
     atoms = []
     collect_atoms(e, atoms)
     atoms.sort(key=repr)
